@@ -3,6 +3,7 @@ package main
 import (
 	"encoding/json"
 	"fmt"
+	"os"
 	"reflect"
 	"sort"
 	"strings"
@@ -20,6 +21,107 @@ type gNode struct {
 	L, R *gNode
 	Kids []*gNode
 	M    map[string]*gNode
+}
+
+// vNode: the successors are held inside values (a struct value, an array, struct values in a slice or a
+// map) or behind a pointer to a slice, rather than directly in pointer fields.
+type vIn struct{ P, Q *vNode }
+type vHold struct{ P *vNode }
+type vNode struct {
+	ID  int
+	In  vIn
+	Arr [2]*vNode
+	VS  []vHold
+	VM  map[string]vHold
+	PL  *[]*vNode
+}
+
+func buildValueGraph(succ [][]int, layout string) *vNode {
+	nodes := make([]*vNode, len(succ))
+	for i := range nodes {
+		nodes[i] = &vNode{ID: i + 1}
+	}
+	for i, ss := range succ {
+		n := nodes[i]
+		for k, s := range ss {
+			t := nodes[s-1]
+			switch layout {
+			case "struct-value":
+				if k == 0 {
+					n.In.P = t
+				} else {
+					n.In.Q = t
+				}
+			case "array":
+				n.Arr[k] = t
+			case "slice-of-values":
+				n.VS = append(n.VS, vHold{t})
+			case "map-of-values":
+				if n.VM == nil {
+					n.VM = map[string]vHold{}
+				}
+				n.VM[string(rune('a'+k))] = vHold{t}
+			case "ptr-to-slice":
+				if n.PL == nil {
+					n.PL = &[]*vNode{}
+				}
+				*n.PL = append(*n.PL, t)
+			}
+		}
+	}
+	return nodes[0]
+}
+
+func valueGraphShape(v interface{}) string {
+	root, _ := v.(*vNode)
+	seen := map[*vNode]int{}
+	var sb strings.Builder
+	var visit func(n *vNode)
+	visit = func(n *vNode) {
+		if n == nil {
+			sb.WriteString("nil")
+			return
+		}
+		if k, ok := seen[n]; ok {
+			fmt.Fprintf(&sb, "#%d", k)
+			return
+		}
+		seen[n] = len(seen) + 1
+		fmt.Fprintf(&sb, "(n%d id=%d P=", seen[n], n.ID)
+		visit(n.In.P)
+		sb.WriteString(" Q=")
+		visit(n.In.Q)
+		sb.WriteString(" A=[")
+		visit(n.Arr[0])
+		sb.WriteString(" ")
+		visit(n.Arr[1])
+		sb.WriteString("] VS=[")
+		for _, h := range n.VS {
+			visit(h.P)
+			sb.WriteString(" ")
+		}
+		sb.WriteString("] VM={")
+		var keys []string
+		for k := range n.VM {
+			keys = append(keys, k)
+		}
+		sort.Strings(keys)
+		for _, k := range keys {
+			sb.WriteString(k + ":")
+			visit(n.VM[k].P)
+			sb.WriteString(" ")
+		}
+		sb.WriteString("} PL=[")
+		if n.PL != nil {
+			for _, t := range *n.PL {
+				visit(t)
+				sb.WriteString(" ")
+			}
+		}
+		sb.WriteString("])")
+	}
+	visit(root)
+	return sb.String()
 }
 
 type graphCase struct {
@@ -133,7 +235,18 @@ func countMarkersRefs(format string, doc []byte, cfg *configuration.Configuratio
 }
 
 func graphRoundTrip(c *Check, cfg *configuration.Configuration, root interface{}, shapeOf func(interface{}) string, desc string, expMarkers, expRefs int, key string) {
+	graphRoundTripDev(c, cfg, root, shapeOf, desc, expMarkers, expRefs, key, "")
+}
+
+// dev: the listed finding (known_findings.jsonl) that failures of the unmarshal half of this layout belong to.
+func graphRoundTripDev(c *Check, cfg *configuration.Configuration, root interface{}, shapeOf func(interface{}) string, desc string, expMarkers, expRefs int, key string, dev string) {
 	want := shapeOf(root)
+	unmarshalViolation := func(msg string, wit map[string]interface{}) {
+		if dev != "" && c.Finding(dev) {
+			return
+		}
+		c.Violation(msg, wit)
+	}
 	for _, format := range []string{"cbe", "cte"} {
 		c.Count(key+format, true)
 		var doc []byte
@@ -175,12 +288,12 @@ func graphRoundTrip(c *Check, cfg *configuration.Configuration, root interface{}
 			}
 		})
 		if p != nil || hung || err != nil {
-			c.Violation(fmt.Sprintf("unmarshaling the %s document of %s fails: %v %v hang=%v; document %q", format, desc, err, p, hung, printable(doc)), wit)
+			unmarshalViolation(fmt.Sprintf("unmarshaling the %s document of %s fails: %v %v hang=%v; document %q", format, desc, err, p, hung, printable(doc)), wit)
 			continue
 		}
 		got := shapeOf(back)
 		if got != want {
-			c.Violation(fmt.Sprintf("%s round trip of %s changes the shape: %s became %s", format, desc, want, got), wit)
+			unmarshalViolation(fmt.Sprintf("%s round trip of %s changes the shape: %s became %s", format, desc, want, got), wit)
 			continue
 		}
 		// one kept unmarshaler: a document cut short (markers and references left pending), then the
@@ -303,6 +416,20 @@ func checkC20(c *Check) {
 			root := buildGraph(gc.Succ, l.name, l.pad)
 			desc := fmt.Sprintf("graph %v in layout %s/%d", gc.Succ, l.name, l.pad)
 			graphRoundTrip(c, cfg, root, shape, desc, gc.Markers, gc.Refs, fmt.Sprint(gc.Succ, l))
+		}
+		// successors held inside values
+		for li, l := range []string{"struct-value", "array", "slice-of-values", "map-of-values", "ptr-to-slice"} {
+			if c.Tier == "quick" && (gi+li)%4 != 0 {
+				continue
+			}
+			dev := "reference-inside-value-lost"
+			if l == "ptr-to-slice" {
+				dev = "pointer-to-slice-field"
+			}
+			if os.Getenv("VERIF_C20_NODEV") != "" {
+				dev = ""
+			}
+			graphRoundTripDev(c, cfg, buildValueGraph(gc.Succ, l), valueGraphShape, fmt.Sprintf("graph %v in layout %s", gc.Succ, l), gc.Markers, gc.Refs, fmt.Sprint(gc.Succ, l), dev)
 		}
 		// the same graph with maps as the nodes themselves
 		if c.Tier != "quick" || gi%2 == 0 {
